@@ -74,13 +74,23 @@ PROPS = {
             'BlockIndex::as_blob / get_bbox_pyramid (HashMap iteration); the outer size search of as_directory (float loop)',
         ],
     ),
+    'C10': dict(
+        verus=['merged', 'vector_tile_merge', 'vector_tile_tables'],
+        kani=[],
+        not_decided=[
+            'merge_tiles: the HashMap-by-layer-name loop (HashMap::get_mut is outside Verus) - which layers are merged and in which order the layers appear',
+            'get_tile_stream of the merged operation (per-cell closure with Vec<Vec<Blob>> slots and an enumerate/filter_map chain)',
+            'VectorTile::to_blob / from_blob composition (to_blob of a layer and the decoders are under contract separately, C11)',
+            'construction of the nested source pipelines (join_all, havoc under R9)',
+        ],
+    ),
     'C11': dict(
-        verus=['varint_pbf', 'vector_tile_tables', 'vector_tile_feature', 'vector_tile_layer', 'vector_tile_layer_enc'],
+        verus=['varint_pbf', 'vector_tile_tables', 'vector_tile_feature', 'vector_tile_layer', 'vector_tile_layer_enc', 'vector_tile_merge'],
         kani=[],
         not_decided=[
             'the operation itself (vectortiles_update_properties::run, filter_map_properties): iterator adapters and closures over iter_mut',
             'only-the-named-layer-changes, CSV join semantics, value typing (GeoValue)',
-            'encode_tag_ids (iterates a BTreeMap: no ghost iterator for the stand-in), GeoValue typing and value sub-message codec',
+            'GeoValue typing and value sub-message codec (write_svarint/read_svarint are under contract, GeoValue::{read,to_blob} are not)',
             'feature decoder correctness beyond totality (to_blob is proved against the MVT wire layout; read is proved total, the composition read(to_blob(f)) = f is not)',
             'round trip lemma dec(enc(v)) = v for varints is stated per direction (encoder = LEB128 spec, decoder = 7-bit group rule), not composed',
         ],
